@@ -47,3 +47,52 @@ def judge_dilute(C, solute, text, solvent):
         fails.append('solvent decreased')
     return {'ok': not fails, 'observed': {'concentration': got, 'contents': {s.name: v for s, v in r.contents.items()}},
             'expected': f'{target} {nb}/{db}', 'failed': fails[:5]}
+
+
+def judge_create_from(S, solute, ctext, Y, qtext):
+    from pyplate import Container
+    val, nb, db = concentration_denotation(ctext)
+    target = float(val)
+    qd = quantity_denotation(qtext)
+    q, qb = float(qd[0]), qd[1]
+    fpS = fingerprint(S)
+    ycont = isinstance(Y, Container)
+    fpY = fingerprint(Y) if ycont else None
+    fails = []
+    try:
+        rs = Container.create_solution_from(S, solute, ctext, Y, qtext)
+    except ValueError as e:
+        if fingerprint(S) != fpS or (ycont and fingerprint(Y) != fpY):
+            fails.append('argument modified by a refused call')
+        # feasibility: target between the solvent's and the stock's concentration and the stock suffices — decided
+        # only coarsely here: a target at most the stock's concentration with a tiny demand must be accepted
+        cur = conc(S, solute, nb, db)
+        tiny = q <= 1e-3 * measure(S, qb) if measure(S, qb) > 0 else False
+        if 0 < target <= cur * (1 - 1e-6) and tiny and not ycont:
+            fails.append(f'refused a reachable request (target {target} <= stock {cur}, demand {q} {qb} of {measure(S, qb)}): {e}')
+        return {'ok': not fails, 'observed': f'ValueError: {e}', 'expected': 'see clauses', 'failed': fails}
+    except Exception as e:
+        return {'ok': False, 'observed': repr(e), 'expected': 'a result or ValueError', 'failed': [type(e).__name__]}
+    src2, sol = rs[0], rs[-1]
+    y2 = rs[1] if len(rs) == 3 else None
+    if fingerprint(S) != fpS or (ycont and fingerprint(Y) != fpY):
+        fails.append('argument modified')
+    for o, nm in ((src2, 'residual source'), (sol, 'solution')) + (((y2, 'residual solvent'),) if y2 is not None else ()):
+        check_container(o, nm, fails)
+    if not close(measure(sol, qb), q, 1e-6):
+        fails.append(f'total is {measure(sol, qb)} {qb}, requested {q}')
+    got = conc(sol, solute, nb, db)
+    if not close(got, target, 1e-6):
+        fails.append(f'concentration is {got} {nb}/{db}, target {target}')
+    subs = set(S.contents) | set(sol.contents) | (set(Y.contents) if ycont else {Y})
+    for s in subs:
+        before = S.contents.get(s, 0) + (Y.contents.get(s, 0) if ycont else 0)
+        after = src2.contents.get(s, 0) + sol.contents.get(s, 0) + (y2.contents.get(s, 0) if y2 is not None else 0)
+        if (not ycont and s == Y):
+            if after < before - 1e-6:
+                fails.append(f'{s.name} lost')
+        elif not close(before, after, 1e-7, 1e-6):
+            fails.append(f'{s.name} not conserved: {before} -> {after}')
+    return {'ok': not fails, 'observed': {'solution': {s.name: v for s, v in sol.contents.items()}, 'concentration': got,
+                                          'total': measure(sol, qb)}, 'expected': f'{q} {qb} at {target} {nb}/{db}',
+            'failed': fails[:5]}
